@@ -352,6 +352,9 @@ func c06Build(r *sim.Run, t *sim.Tape, scheme string, first bool) (*mp4.InitSegm
 			frag, _ := mp4.CreateFragment(seq, p.TrackID)
 			fr := C06Frag{From: len(p.Log), Seq: seq}
 			seq++
+			if t.Chance(60) {
+				frag.Mdat.LargeSize = true // media data box written with the 64-bit size form
+			}
 			if t.Chance(400) { // foreign boxes in moof / traf, added through the API
 				if t.Chance(300) {
 					// sample groups that have nothing to do with protection: a roll-recovery group (sbgp + sgpd of type
@@ -732,7 +735,20 @@ func c06ThirdPartyRun(r *sim.Run) {
 	if err != nil {
 		panic(sim.HarnessAbort{Msg: "third-party file not demuxable by the reference: " + err.Error()})
 	}
-	if t.Chance(350) {
+	if tp.init == "" && t.Chance(250) {
+		// the same file with its trak boxes and its trex boxes in another order (legal: they are matched by track id)
+		if nd, err := work.PermuteTracks(t, cf.Data); err == nil && !bytes.Equal(nd, cf.Data) {
+			if d2, err := ref.DemuxStream(nd, trex); err == nil && len(d2.Fragments) == len(before.Fragments) {
+				if f2, err := decodeWith(r, tp.name+"+permuted-tracks", nd, viaSR, cfg); err == nil && f2.Init != nil {
+					encStream, before, f, init = nd, d2, f2, f2.Init
+					r.Probe("third-party-tracks-permuted")
+				} else {
+					r.Violate("c06-third-party", "%s with trak/trex boxes in another order does not decode: %v", tp.name, err)
+					return
+				}
+			}
+		}
+	} else if t.Chance(350) {
 		// key-rotation style: two pssh boxes of different sizes in every moof (byte surgery, validated against the
 		// reference demuxer: every sample must still be found with the same bytes)
 		if nd, err := work.InsertMoofPssh(cf.Data); err == nil {
